@@ -3,9 +3,10 @@ CONSTANTS
   MaxOps = 3
   Modes = {"hydraulics", "sequential", "bidirectional", "heat"}
   Budgets = {"ample", "starved"}
-  Methods = {"constant", "automatic"}
-  TolSets = {"default", "split", "split2"}
-  EditOps = {"edit"}
+  Methods = {"constant"}
+  TolSets = {"default"}
+  Matrix = {"plain", "update", "reuse"}
+  EditOps = {"edit", "struct", "user"}
   EmitOn = FALSE
 INVARIANT InvFailedEmpty
 INVARIANT InvFlag
